@@ -410,3 +410,13 @@ RESUME_PROGS = [
     'ON ERROR RESUME NEXT\na% = 32767\na% = a% + 1\nPRINT "after"\n',
     'ON ERROR GOTO h\nDIM q(3)\ni% = 7\nIF i% > 2 THEN q(i%) = 1 ELSE PRINT "no"\nPRINT "end"\nEND\nh:\nPRINT "E"; ERR\nRESUME NEXT\n',
 ]
+
+
+def run_chunked(fn, cases, size, **kw):
+    """vlib.run_impl in several batches: a batch has its own worker processes
+    and its own timeout, so a very slow machine does not lose a whole suite"""
+    import vlib
+    out = []
+    for k in range(0, len(cases), size):
+        out += vlib.run_impl(fn, cases[k:k + size], **kw)
+    return out
